@@ -26,20 +26,22 @@ struct Osc { int shape; float detune; bool sync; static const rtosc::Ports ports
 struct Fx { int kind; float mix; int taps[3]; static const rtosc::Ports ports; Fx() : kind(1), mix(0.25f) { taps[0] = 1; taps[1] = 2; taps[2] = 3; } };
 struct Flat {
     int i_pos, i_neg, i_wide; float f1, f_neg; bool t_off, t_on; int opt; char name[24]; char tag[6];
-    int arr[4]; float farr[3]; bool tarr[3]; char pc; int slot_level[3]; char text[120]; int big[12]; float fbig[8]; int oarr[3];
+    int arr[4]; float farr[3]; bool tarr[3]; char pc; int slot_level[3]; char text[120]; int big[12]; float fbig[8]; int oarr[3]; int kw;
     Flat() : i_pos(10), i_neg(-5), i_wide(0), f1(0.5f), f_neg(-1.25f), t_off(false), t_on(true), opt(1), pc('@') {
-        strcpy(name, "init"); strcpy(tag, ""); int a[4] = {1, 2, 3, 4}; memcpy(arr, a, sizeof a); farr[0] = farr[1] = farr[2] = 0; tarr[0] = tarr[1] = tarr[2] = false; slot_level[0] = slot_level[1] = slot_level[2] = 0; strcpy(text, ""); for (int q = 0; q < 12; q++) big[q] = 0; for (int q = 0; q < 8; q++) fbig[q] = 1.0f; oarr[0] = oarr[1] = oarr[2] = 0; }
+        strcpy(name, "init"); strcpy(tag, ""); int a[4] = {1, 2, 3, 4}; memcpy(arr, a, sizeof a); farr[0] = farr[1] = farr[2] = 0; tarr[0] = tarr[1] = tarr[2] = false; slot_level[0] = slot_level[1] = slot_level[2] = 0; strcpy(text, ""); for (int q = 0; q < 12; q++) big[q] = 0; for (int q = 0; q < 8; q++) fbig[q] = 1.0f; oarr[0] = oarr[1] = oarr[2] = 0; kw = 0; }
     static const rtosc::Ports ports;
 };
 // ------------------------------------------------------------------ application 2: presets, enabled-by, sub-trees
+struct Bank { Fx slots[2]; static const rtosc::Ports ports; };
 struct Synth {
     int preset, gain; float cutoff; int env[3];
     bool Poscenabled; Osc osc;                 // rRecur + rEnabledBy (sibling toggle)
     Osc voices[3]; bool Pvoices;               // rRecurs
     bool Pfx; Fx *fx;                          // rRecurp: the object exists only while Pfx is true
     int mode; int depth;                       // depth declares rDepends(mode)
-    Synth() : preset(0), gain(30), cutoff(0.5f), Poscenabled(false), Pvoices(true), Pfx(false), fx(nullptr), mode(0), depth(7) { apply_preset(); }
-    ~Synth() { delete fx; }
+    bool Pbank; Bank *bank;                    // rRecurp over rRecurs: "/bank/slots1/kind" depends on "/Pbank" two levels up
+    Synth() : preset(0), gain(30), cutoff(0.5f), Poscenabled(false), Pvoices(true), Pfx(false), fx(nullptr), mode(0), depth(7), Pbank(false), bank(nullptr) { apply_preset(); }
+    ~Synth() { delete fx; delete bank; }
     Synth(const Synth &) = delete;
     void apply_preset() { static const int g[3] = {30, 127, 64}; static const float c[3] = {0.5f, 0.9f, 0.125f}; static const int e[3][3] = {{0, 0, 0}, {10, 20, 30}, {5, 5, 5}};
         int p = preset < 0 ? 0 : preset > 2 ? 2 : preset; gain = g[p]; cutoff = c[p]; memcpy(env, e[p], sizeof env); }
@@ -77,6 +79,9 @@ inline const rtosc::Ports Fx::ports = {
     rArrayI(taps, 3, rLinear(0, 100), rDefault([1 2 3]), "delay taps"),
 };
 #undef rObject
+#define rObject Bank
+inline const rtosc::Ports Bank::ports = { rRecurs(slots, 2, "effect slots") };
+#undef rObject
 #define rObject Flat
 inline const rtosc::Ports Flat::ports = {
     rParamI(i_pos, rLinear(0, 100), rDefault(10), "positive int"),
@@ -93,6 +98,7 @@ inline const rtosc::Ports Flat::ports = {
     rArrayF(farr, 3, rLinear(-1, 1), rDefault([3x0.0]), "float array"),
     rArrayT(tarr, 3, rDefault([false false false]), "toggle array"),
     rParam(pc, rDefault('@'), "char parameter"),
+    rOption(kw, rOptions(plain, inf_loop, true_bypass, nil_x, false_start, now_playing, immediately_2, MIDI_in), rLinear(0, 7), rDefault(plain), "option whose symbols start with words of the text format"),
     rString(text, 120, rDefault(""), "long string (the printer breaks it over several lines)"),
     rArrayI(big, 12, rLinear(-100, 100), rDefault([12x0]), "long int array (runs and arithmetic sequences are printed as ranges)"),
     rArrayF(fbig, 8, rLinear(-4, 4), rDefault([8x1.0]), "long float array"),
@@ -119,6 +125,9 @@ inline const rtosc::Ports Synth::ports = {
     {"mode::i", rProp(parameter) rMap(min, 0) rMap(max, 3) rDefault(0) rDoc("mode: changing it resets depth"), NULL,
         [](const char *m, rtosc::RtData &d) { Synth *o = (Synth *)d.obj; if (*rtosc_argument_string(m)) { int v = rtosc_argument(m, 0).i; if (v < 0) v = 0; if (v > 3) v = 3; if (v != o->mode) { o->mode = v; o->depth = 7; } d.broadcast(d.loc, "i", o->mode); } else d.reply(d.loc, "i", o->mode); }},
     rParamI(depth, rLinear(0, 20), rDepends(mode), rDefault(7), "depth (reset by mode)"),
+    {"Pbank::T:F", rProp(parameter) rDefault(false) rDoc("creates / destroys the bank object"), NULL,
+        [](const char *m, rtosc::RtData &d) { Synth *o = (Synth *)d.obj; const char *a = rtosc_argument_string(m); if (*a) { bool on = *a == 'T'; if (on && !o->bank) o->bank = new Bank; if (!on && o->bank) { delete o->bank; o->bank = nullptr; } o->Pbank = on; d.broadcast(d.loc, on ? "T" : "F"); } else d.reply(d.loc, o->Pbank ? "T" : "F"); }},
+    rRecurp(bank, rEnabledBy(Pbank), "bank of effect slots, exists only while Pbank"),
 };
 #undef rObject
 
@@ -183,6 +192,7 @@ inline const std::vector<Param> &flat_params() {
     P.push_back({"/farr", 3, 'f', [](void *o, int k) { return vf(F(o)->farr[k]); }, [](void *, int) { return vf(0.0f); }, yes, -1, 1, 0, {}});
     P.push_back({"/tarr", 3, 'T', [](void *o, int k) { return vb(F(o)->tarr[k]); }, [](void *, int) { return vb(false); }, yes, 0, 1, 0, {}});
     P.push_back({"/pc", 1, 'c', [](void *o, int) { return vi(F(o)->pc); }, [](void *, int) { return vi('@'); }, yes, 0, 127, 0, {}});
+    P.push_back({"/kw", 1, 'o', [](void *o, int) { return vi(F(o)->kw); }, [](void *, int) { return vi(0); }, yes, 0, 7, 0, {"plain", "inf_loop", "true_bypass", "nil_x", "false_start", "now_playing", "immediately_2", "MIDI_in"}});
     P.push_back({"/text", 1, 's', [](void *o, int) { return vs(F(o)->text); }, [](void *, int) { return vs(""); }, yes, 0, 0, 120, {}});
     P.push_back({"/big", 12, 'i', [](void *o, int k) { return vi(F(o)->big[k]); }, [](void *, int) { return vi(0); }, yes, -100, 100, 0, {}});
     P.push_back({"/fbig", 8, 'f', [](void *o, int k) { return vf(F(o)->fbig[k]); }, [](void *, int) { return vf(1.0f); }, yes, -4, 4, 0, {}});
@@ -208,6 +218,12 @@ inline const std::vector<Param> &synth_params() {
     P.push_back({"/fx/kind", 1, 'i', [](void *o, int) { return vi(S(o)->fx ? S(o)->fx->kind : 1); }, [](void *, int) { return vi(1); }, fxr, 0, 9, 0, {}});
     P.push_back({"/fx/mix", 1, 'f', [](void *o, int) { return vf(S(o)->fx ? S(o)->fx->mix : 0.25f); }, [](void *, int) { return vf(0.25f); }, fxr, 0, 1, 0, {}});
     P.push_back({"/fx/taps", 3, 'i', [](void *o, int k) { return vi(S(o)->fx ? S(o)->fx->taps[k] : k + 1); }, [](void *, int k) { return vi(k + 1); }, fxr, 0, 100, 0, {}});
+    P.push_back({"/Pbank", 1, 'T', [](void *o, int) { return vb(S(o)->Pbank); }, [](void *, int) { return vb(false); }, yes, 0, 1, 0, {}});
+    { auto br = [](void *o) { return S(o)->Pbank && S(o)->bank; };
+      for (int q = 0; q < 2; q++) { std::string pre = "/bank/slots" + std::to_string(q) + "/";
+        P.push_back({pre + "kind", 1, 'i', [q](void *o, int) { return vi(S(o)->bank ? S(o)->bank->slots[q].kind : 1); }, [](void *, int) { return vi(1); }, br, 0, 9, 0, {}});
+        P.push_back({pre + "mix", 1, 'f', [q](void *o, int) { return vf(S(o)->bank ? S(o)->bank->slots[q].mix : 0.25f); }, [](void *, int) { return vf(0.25f); }, br, 0, 1, 0, {}});
+        P.push_back({pre + "taps", 3, 'i', [q](void *o, int k) { return vi(S(o)->bank ? S(o)->bank->slots[q].taps[k] : k + 1); }, [](void *, int k) { return vi(k + 1); }, br, 0, 100, 0, {}}); } }
     P.push_back({"/mode", 1, 'i', [](void *o, int) { return vi(S(o)->mode); }, [](void *, int) { return vi(0); }, yes, 0, 3, 0, {}});
     P.push_back({"/depth", 1, 'i', [](void *o, int) { return vi(S(o)->depth); }, [](void *, int) { return vi(7); }, yes, 0, 20, 0, {}});
 #undef S
